@@ -10,6 +10,8 @@ from sa.guards import GuardView, atom_of, names_in
 from sa.index import own_nodes
 from sa.report import Ctx
 
+from .common import generic_sweeps
+
 from .sat_common import _enclosing_block
 
 EXPLANATION = (
@@ -285,6 +287,7 @@ def run(ctx: Ctx):
     check_bellman_ford(ctx)
     check_floyd(ctx)
     check_grid(ctx)
+    generic_sweeps(ctx)
 
 
 # ---------------------------------------------------------------------------------------------
